@@ -78,6 +78,11 @@ CHECKS = {
             "Every stream of <=2/3 blocks from a 14-block alphabet x {LF,CRLF} x {complete, missing final blank line, missing final EOL} is delivered through the real push_bytes -> SseDecoder -> EventFrameMapper -> sink pipe in all 2^(n-1) partitions (<=14/17 bytes) or all 1-splits, 2-splits and byte-at-a-time; frames, seqs, terminal flag and collected tool calls must equal the single-chunk delivery, which must equal a reference SSE parser on the lossily decoded body.",
             "Block alphabet and length bounds; CR-only line endings and BOM not covered; 3+-way splits of long streams not covered; the exported driver restates the receive loop body (bound to the real HTTP loop by the engine-P checks).",
             "DESIGN.md §3 C15"),
+    "C16": ("P", "exploration",
+            "bounded exhaustive enumeration of function-call scripts x tool_choice settings x history modes through the production router against the scripted provider; judged on the requests the provider received, file effects and the log",
+            "Every set of 0..2 (quick) / 0..3 (thorough) items from {write A, write B (append), read, unknown tool, invalid args} x 4 argument-delivery variants x output_index {in order, reversed, missing} x duplicates {none, repeated done, shared call id} x {[DONE], none} x item ids {present, missing} x 7 tool_choice settings (3 for two-item scripts in quick) x both history modes, plus an endless-call script: request k+1 must answer exactly the completed call ids once each in output order, each permitted call must run exactly once (append markers), a barred tool must leave only the denial pair and no file effect, <= 32 executions per run, every received request must be a valid streaming payload, invalid configurations must send nothing, and stateless inputs must extend.",
+            "Script alphabet bounds; for two items sharing one call id only 'at most one execution / one answer for that id' is judged (which item survives is undefined); exact argument bytes are checked only through the markers and the superseded-delta probe.",
+            "DESIGN.md §3 C16"),
     "C20": ("H-bfs", "model_checking",
             "explicit-state BFS over the real TuiState::update transition function with state dedup",
             "All states reachable within the depth bound from the initial TuiState, over a frame alphabet covering every surface-relevant kind x seq {0,1,2,5,u64::MAX} x 9 capacity settings, are enumerated by executing the real update function; no-panic, bounds, lookup exactness and fold determinism are checked in every state, render on every new state up to a smaller depth.",
